@@ -250,13 +250,23 @@ Proof.
   destruct t; cbn [imin imax] in *; nia.
 Qed.
 
-Lemma checked_sh_range : forall t o x n z,
+Lemma sh_result_in_range : forall t o x n z,
   in_range t x = true -> 0 <= n -> checked_sh t o x n = Some z -> in_range t z = true.
 Proof.
   intros t o x n z Hx Hn H. unfold checked_sh in H.
   destruct (n <? width t); [|discriminate]. inversion H. destruct o.
   - apply wrap_in_range.
   - apply shiftr_in_range; assumption.
+Qed.
+
+Lemma exact_sh_result_in_range : forall t o x n z,
+  in_range t x = true -> 0 <= n -> exact_sh t o x n = Some z -> in_range t z = true.
+Proof.
+  intros t o x n z Hx Hn H. unfold exact_sh in H. destruct o.
+  - destruct (checked_sh t Shl x n) eqn:S; [|discriminate].
+    destruct (Z.shiftr z0 n =? x); [|discriminate]. inversion H; subst.
+    apply (sh_result_in_range t Shl x n z Hx Hn S).
+  - apply (sh_result_in_range t Shr x n z Hx Hn H).
 Qed.
 
 Lemma try_u32_byte : forall z, in_range U8 z = true -> try_u32 z = Some z.
@@ -268,8 +278,8 @@ Qed.
 Lemma shift_arm_agrees : forall t (inj_n : txt -> number) (inj_v : Z -> value) o ta tb za zb,
   canon_txt ta za -> canon_txt tb zb -> in_range t za = true ->
   (forall z, in_range t z = true -> good (inj_n (Dec z)) (inj_v z)) ->
-  agrees (opt_num inj_n (cm_checked (P_ity t) P_u32 (checked_sh t o) ta tb))
-         (shift_arm t inj_v o za (try_u32 zb)).
+  agrees (opt_num inj_n (cm_checked (P_ity t) P_u32 (exact_sh t o) ta tb))
+         (shift_arm exact_sh t inj_v o za (try_u32 zb)).
 Proof.
   intros t inj_n inj_v o ta tb za zb Ha Hb Ra Hgood.
   unfold cm_checked, shift_arm, try_u32.
@@ -277,18 +287,18 @@ Proof.
   rewrite (parse_as_canon _ _ _ Hb). cbn [p_in_range].
   destruct ((0 <=? zb) && (zb <=? 4294967295)) eqn:E; [|exact I].
   apply andb_true_iff in E. destruct E as [E0 _]. apply Z.leb_le in E0.
-  destruct (checked_sh t o za zb) eqn:S; cbn [opt_num agrees is_failure]; [|exact I].
-  eexists. split; [apply Hgood; apply (checked_sh_range t o za zb z Ra E0 S) | reflexivity].
+  destruct (exact_sh t o za zb) eqn:S; cbn [opt_num agrees is_failure]; [|exact I].
+  eexists. split; [apply Hgood; apply (exact_sh_result_in_range t o za zb z Ra E0 S) | reflexivity].
 Qed.
 
 Lemma fold_shift_agrees : forall o x y a b, good x a -> good y b ->
-  agrees (fold_shift o x y) (shift_op o a b).
+  agrees (fold_shift FixedF o x y) (shift_op Fixed o a b).
 Proof.
   intros o x y a b Hx Hy.
   destruct x as [tx|tx|tx|tx], a as [za|za|za|fa|ba]; cbn [good] in Hx; try contradiction;
   destruct y as [ty|ty|ty|ty], b as [zb|zb|zb|fb|bb]; cbn [good] in Hy; try contradiction;
   try destruct Hx as [Cx Rx]; try destruct Hy as [Cy Ry]; widen_hyps;
-  unfold fold_shift, shift_op; widen; try exact I.
+  unfold fold_shift, shift_op; cbn [fold_sh_fn sh_fn]; widen; try exact I.
   all: try (match goal with H : in_range U8 ?z = true |- context [Some ?z] => rewrite <- (try_u32_byte z H) end).
   all: (apply (shift_arm_agrees I32 NInteger Int) || apply (shift_arm_agrees I128 NBigInt Big) || apply (shift_arm_agrees U8 NByte Byte));
        auto using good_int, good_big, good_byte.
@@ -407,6 +417,73 @@ Proof.
   destruct c as [n|b]; cbn in A.
   - destruct A as (v & _ & E). rewrite E in F. exact F.
   - rewrite A in F. exact F.
+Qed.
+
+(* ================================================================ literals the folder never sees
+   fixes/literal-kind-decided-once.diff: the kind of an integer literal is decided by the parser *)
+Lemma fold_leaf_literal_int : forall z n, 0 <= z -> literal_int z = Some n ->
+  fold_leaf n = fold_leaf (NInteger (Src z)).
+Proof.
+  intros z n Hz H. unfold literal_int in H.
+  destruct (in_range I128 z) eqn:R128; [|discriminate].
+  destruct (in_range I32 z) eqn:R32; inversion H; subst; [reflexivity|].
+  unfold fold_leaf, parse_as; cbn [p_signed signed negb andb leading_minus parse_Z p_in_range].
+  rewrite R32, R128. reflexivity.
+Qed.
+
+Lemma literal_int_parsed : forall z n, literal_int z = Some n -> parsed (ENum n).
+Proof.
+  intros z n H. unfold literal_int in H.
+  destruct (in_range I128 z); [|discriminate].
+  destruct (in_range I32 z) eqn:R32; inversion H; subst; cbn; auto.
+Qed.
+
+(* with such leaves a tree compiled as written evaluates exactly like the tree over variables *)
+Theorem inline_agrees : forall v e, source e -> parsed e -> eval_inline v e = eval_rt v e.
+Proof.
+  intros v e. induction e as [n|b|e1 IH|e1 IH|op l IHl r IHr]; intros S P; cbn [eval_inline eval_rt].
+  - destruct n as [t|t|t|t]; cbn [source parsed] in *.
+    + destruct t as [z|z|t']; try contradiction.
+      unfold fold_leaf, make, parse_as; cbn [p_signed signed negb andb leading_minus parse_Z p_in_range].
+      rewrite P. cbn [make_c make]. unfold parse_as; cbn [p_signed signed negb andb leading_minus parse_Z p_in_range].
+      rewrite P. reflexivity.
+    + destruct t as [z|z|t']; try contradiction.
+      unfold fold_leaf, make, parse_as; cbn [p_signed signed negb andb leading_minus parse_Z p_in_range].
+      destruct (in_range I128 z) eqn:R; [|reflexivity].
+      cbn [make_c make]. unfold parse_as; cbn [p_signed signed negb andb leading_minus parse_Z p_in_range].
+      rewrite R. reflexivity.
+    + reflexivity.
+    + reflexivity.
+  - reflexivity.
+  - rewrite (IH S P). reflexivity.
+  - rewrite (IH S P). reflexivity.
+  - destruct S as [Sl Sr], P as [Pl Pr]. rewrite (IHl Sl Pl), (IHr Sr Pr). reflexivity.
+Qed.
+
+(* the ORIGINAL parser left `3000000000` an Integer: `3000000000 < 5` is not folded, is accepted, and dies
+   in make_int, while the same comparison over variables is false *)
+Definition e_big_cmp := EBin (Cmp CLt) (ENum (NInteger (Src 3000000000))) (ENum (NInteger (Src 5))).
+Lemma orig_oversized_literal_refuted : forall v,
+  source e_big_cmp /\ fold FixedF e_big_cmp = FNot /\ fold OrigF e_big_cmp = FNot /\
+  eval_inline v e_big_cmp = Err /\ eval_rt v e_big_cmp = Ok (Bool false) /\
+  (exists n, literal_int 3000000000 = Some n /\
+             eval_inline v (EBin (Cmp CLt) (ENum n) (ENum (NInteger (Src 5)))) = Ok (Bool false)).
+Proof.
+  intros v. split; [cbn; lia|]. split; [reflexivity|]. split; [reflexivity|].
+  split; [reflexivity|]. split; [destruct v as [[|]|]; reflexivity|].
+  eexists. split; [reflexivity|]. destruct v as [[|]|]; reflexivity.
+Qed.
+
+(* `<<`: folder and run time were changed together (fixes/num-shl-lost-bits.diff); before, both produced the
+   truncated pattern (C06 held, C05 did not) *)
+Definition e_shl := EBin (Shift Shl) (ENum (NInteger (Src 1))) (ENum (NInteger (Src 31))).    (* 1 << 31 *)
+Lemma shl_changed_together : forall m,
+  source e_shl /\ fold FixedF e_shl = FErr /\ eval_rt Fixed e_shl = Err /\
+  fold OrigF e_shl = FVal (CNum (NInteger (Dec (-2147483648)))) /\
+  eval_rt (Orig m) e_shl = Ok (Int (-2147483648)).
+Proof.
+  intros m. split; [cbn; lia|]. split; [vm_compute; reflexivity|]. split; [vm_compute; reflexivity|].
+  split; [vm_compute; reflexivity | destruct m; vm_compute; reflexivity].
 Qed.
 
 (* ================================================================ the ORIGINAL folder: real disagreements
